@@ -200,12 +200,15 @@ def _gen_common(rng, tier, routes, **treekw):
 def _with_alias(rng, case, p=0.05):
     """Some directory payloads hold a directory symbolic link that is a second name for one of their directories
     (content/latest -> season1; no cycle).  Judged under both readings of such a link, see oracles.both_link_readings."""
-    if rng.random() < p and gen.add_dir_alias(rng, case["tree"]):
+    if rng.random() < p and (gen.add_file_alias if rng.random() < 0.35 else gen.add_dir_alias)(rng, case["tree"]):
         case["remake"] = None
     return case
 
 
 def _judge(check, case, *args):
+    if "+file-alias" in case["tree"]["layout"]:
+        args[-1]["cases_with_file_alias_link"] = 1
+        return oracles.both_link_readings(check, *args)
     if "+dir-alias" in case["tree"]["layout"]:
         args[-1]["cases_with_directory_alias_link"] = 1
         return oracles.both_link_readings(check, *args)
@@ -233,7 +236,7 @@ class C01:
                 "cases_recreated_after_mutation_in_process")
     assumptions = ("reference BEP 3 hashing (ref/hashing.py) is correct",
                    "payload trees are those generated (<= 41 files, depth <= 4; no symbolic links except, in 5 % of the "
-                   "directory cases, a link that is a second name for a directory of the payload - judged under both "
+                   "directory cases, a link that is a second name for a directory or a regular file of the payload - judged under both "
                    "readings: followed like the creators do, or not part of the payload)")
 
     @staticmethod
